@@ -433,6 +433,11 @@ var c03XShapes = []xshape{
 	{cs: []xclause{{qclause: qclause{s: bS, p: cA, o: cA, ok: 4}, okc: 1, lo: -1, hi: -1}}, okinds: []int{3, 4}},
 	// 25: int64 constant object
 	{cs: []xclause{{qclause: qclause{s: bS, p: bP, o: cA, ok: 2}, lo: -1, hi: -1}}, okinds: []int{1, 2}},
+	// 26: a fully specified clause (existence test) with aliases, over one and two FROM graphs
+	{cs: []xclause{{qclause: qclause{s: cA, p: cA, o: cA}, sAs: "x", oAs: "y", lo: -1, hi: -1}}, okinds: []int{0, 1}},
+	{cs: []xclause{{qclause: qclause{s: cA, p: cA, o: cA}, sAs: "x", oAs: "y", lo: -1, hi: -1}}, okinds: []int{0}, graphs: 2},
+	// 28: an existence test guarding a further clause, two FROM graphs
+	{cs: []xclause{{qclause: qclause{s: cA, p: cA, o: cA}, sAs: "x", lo: -1, hi: -1}, {qclause: qclause{s: pos{bind: "x"}, p: pos{cb: 'b'}, o: bZ}, lo: -1, hi: -1}}, okinds: []int{0}, graphs: 2},
 }
 
 // newStoreGraphs creates a store with the named graphs and distributes the
